@@ -31,6 +31,7 @@ def g_dir():
     G.append(Grammar('mutleft', ['A', 'B'], ['a', 'b', 'c', 'd'], 'A', [('A', ['B', 'a']), ('A', ['c']), ('B', ['A', 'b']), ('B', ['d'])], note='mutually left-recursive nonterminals'))
     G.append(Grammar('pal', ['S'], ['a', 'b'], 'S', [('S', ['a', 'S', 'a']), ('S', ['b'])], note='centre-marked nesting'))
     G.append(Grammar('trail', ['S', 'A'], ['a', 'b'], 'S', [('S', ['a', 'A']), ('S', ['b', 'A', 'b']), ('A', []), ('A', ['a', 'A'])], note='trailing nullable with lookahead-dependent reduce'))
+    G.append(Grammar('interl', ['L', 'I'], ['a', 'b'], 'L', [('L', ['I']), ('I', ['a']), ('L', ['L', 'I']), ('I', ['b'])], note='rules of different nonterminals interleaved: declaration order differs from the order sorted by left side'))
     G.append(Grammar('e123', ['S', 'P'], ['a', 'b', 'c'], 'S', [('S', ['P', 'b', 'c'], {'f': 'e1'}), ('S', ['a', 'P', 'c'], {'f': 'e2'}), ('S', ['c', 'a', 'P'], {'f': 'e3'}), ('P', ['b']), ('P', ['a', 'a'])], note='helper functors _e1.._e3 and default functors'))
     return G
 
@@ -63,6 +64,8 @@ def g_prec():
     G.append(ex('p_def', (0, 'none'), (0, 'none')))
     G.append(ex('p_neg', (1, 'ltor'), (2, 'ltor'), extra_rules=[('E', ['-', 'E'], {'prec': 3})], extra_terms=[T('-', 1, 'ltor')]))
     G.append(ex('p_expl', (1, 'ltor'), (2, 'ltor'), extra_rules=[('E', ['E', '-', 'E'], {'prec': 3})], extra_terms=[T('-', 0, 'none')]))
+    G.append(Grammar('p_perm', ['P', 'S'], [T('i', 2, 'none'), T('e', 1, 'none'), T('x')], 'P', [('S', ['i', 'S', 'e', 'S']), ('S', ['i', 'S']), ('S', ['x']), ('P', ['S'], {'f': 'default'})],
+                     note='dangling else with precedences (reduce preferred), rules NOT listed in nterms order: rule numbers differ from sorted positions'))
     G.append(Grammar('p_else', ['S'], [T('i'), T('e', 1, 'rtol'), T('x')], 'S', [('S', ['x']), ('S', ['i', 'S']), ('S', ['i', 'S', 'e', 'S'])], note='dangling else, shift preferred'))
     return G
 
